@@ -364,6 +364,15 @@ func (e *ReverseTranslateError) Unwrap() error {
 
 // ReverseTranslate calls each Mangler's Unmangle method in reverse order.
 func (t *Transformer) ReverseTranslate(v reflect.Value) (reflect.Value, error) {
+	// automatically dereference a pointer to the struct, as stacking does:
+	// sources are free to return one (sourcewrap.Blank does).
+	for v.Kind() == reflect.Ptr {
+		if v.IsNil() {
+			v = reflect.New(v.Type().Elem())
+		}
+		v = v.Elem()
+	}
+
 	// iterate through manglers in reverse order passing the value of the struct
 	// field paired with its reflect.StructField as a FieldValueTuple
 
